@@ -50,6 +50,27 @@ Proof.
   intros H. unfold decode. cbn [length decode_fuel]. unfold dec1. rewrite H. reflexivity.
 Qed.
 
+(* the query phase stops at the first '#' *)
+Fixpoint query_split (l : list N) : list N * option (list N) :=
+  match l with
+  | [] => ([], None)
+  | r :: l' => if r =? 35 then ([], Some l') else let '(q, f) := query_split l' in (r :: q, f)
+  end.
+
+Lemma query_split_nohash l : ~ In 35 l -> query_split l = (l, None).
+Proof.
+  induction l as [|r l IH]; intros H; [reflexivity|]. cbn [query_split].
+  destruct (r =? 35) eqn:E; [exfalso; apply H; left; lia|].
+  rewrite IH; [reflexivity|]. intros Hin. apply H. right. exact Hin.
+Qed.
+
+Lemma query_split_hash q f : ~ In 35 q -> query_split (q ++ 35 :: f) = (q, Some f).
+Proof.
+  induction q as [|r q IH]; intros H; [reflexivity|]. cbn [query_split app].
+  destruct (r =? 35) eqn:E; [exfalso; apply H; left; lia|].
+  rewrite IH; [reflexivity|]. intros Hin. apply H. right. exact Hin.
+Qed.
+
 (* ------------------------------------------------------------------------------------------ *)
 (* 1. diagnostics off                                                                           *)
 (* ------------------------------------------------------------------------------------------ *)
@@ -82,27 +103,6 @@ Section Quiet.
 
   Lemma enc_with_cons t r l : enc_with t (r :: l) = percentEncodeRune c r (Some t) ++ enc_with t l.
   Proof. reflexivity. Qed.
-
-  (* the query phase stops at the first '#' *)
-  Fixpoint query_split (l : list N) : list N * option (list N) :=
-    match l with
-    | [] => ([], None)
-    | r :: l' => if r =? 35 then ([], Some l') else let '(q, f) := query_split l' in (r :: q, f)
-    end.
-
-  Lemma query_split_nohash l : ~ In 35 l -> query_split l = (l, None).
-  Proof.
-    induction l as [|r l IH]; intros H; [reflexivity|]. cbn [query_split].
-    destruct (r =? 35) eqn:E; [exfalso; apply H; left; lia|].
-    rewrite IH; [reflexivity|]. intros Hin. apply H. right. exact Hin.
-  Qed.
-
-  Lemma query_split_hash q f : ~ In 35 q -> query_split (q ++ 35 :: f) = (q, Some f).
-  Proof.
-    induction q as [|r q IH]; intros H; [reflexivity|]. cbn [query_split app].
-    destruct (r =? 35) eqn:E; [exfalso; apply H; left; lia|].
-    rewrite IH; [reflexivity|]. intros Hin. apply H. right. exact Hin.
-  Qed.
 
   Section Run.
     Variable inp : list rune.
@@ -502,3 +502,37 @@ Section Quiet.
     Qed.
   End Run.
 End Quiet.
+
+(* what the scan predicate means: a letter, a run of scheme characters, a colon *)
+Lemma schemechar_colon : is_schemechar 58 = false.
+Proof. vm_compute. reflexivity. Qed.
+
+Lemma scheme_scan_spec l :
+  scheme_scan l = true <-> exists s rest, l = s ++ 58 :: rest /\ forallb is_schemechar s = true.
+Proof.
+  split.
+  - induction l as [|r l IH]; cbn [scheme_scan]; [discriminate|].
+    destruct (is_schemechar r) eqn:E; intros H.
+    + destruct (IH H) as [s [rest [-> Hs]]]. exists (r :: s), rest. split; [reflexivity|].
+      cbn [forallb]. rewrite E, Hs. reflexivity.
+    + assert (r = 58) by lia. subst r. exists [], l. split; reflexivity.
+  - intros [s [rest [-> Hs]]]. induction s as [|r s IH]; cbn [app scheme_scan].
+    + rewrite schemechar_colon. reflexivity.
+    + cbn [forallb] in Hs. apply andb_true_iff in Hs. destruct Hs as [Hr Hs]. rewrite Hr. apply IH, Hs.
+Qed.
+
+Theorem has_scheme_prefix_spec l :
+  has_scheme_prefix l = true <->
+  exists a s rest, l = a :: s ++ 58 :: rest /\ isAlpha a = true /\ forallb is_schemechar s = true.
+Proof.
+  destruct l as [|a l]; cbn [has_scheme_prefix].
+  - split; [discriminate|]. intros [a [s [rest [H _]]]]. discriminate H.
+  - rewrite andb_true_iff, scheme_scan_spec. split.
+    + intros [Ha [s [rest [-> Hs]]]]. exists a, s, rest. auto.
+    + intros [a' [s [rest [H [Ha Hs]]]]]. injection H as -> ->. split; [exact Ha|]. exists s, rest. auto.
+Qed.
+
+Print Assumptions fragment_phase.
+Print Assumptions query_phase.
+Print Assumptions no_scheme_phase.
+Print Assumptions has_scheme_prefix_spec.
